@@ -31,10 +31,14 @@ impl IoDriver {
     }
 
     pub(crate) async fn open(&self, path: impl AsRef<Path>) -> IOResult<File> {
+        #[cfg(feature = "pearl_verif")]
+        crate::verif::io::on_open(path.as_ref(), false)?;
         File::from_file(path, |f| f.create(false).append(true).read(true)).await
     }
 
     pub(crate) async fn create(&self, path: impl AsRef<Path>) -> IOResult<File> {
+        #[cfg(feature = "pearl_verif")]
+        crate::verif::io::on_open(path.as_ref(), true)?;
         File::from_file(path, |f| f.create(true).write(true).read(true)).await
     }
 }
@@ -99,6 +103,14 @@ impl File {
     }
 
     fn write_data(file: &StdFile, mut offset: u64, writable_data: WritableData) -> IOResult<()> {
+        #[cfg(feature = "pearl_verif")]
+        let _verif_io = match &writable_data {
+            WritableData::Single(b) => (crate::verif::io::on_write(file, offset, b)?, None),
+            WritableData::Double(b1, b2) => {
+                let g1 = crate::verif::io::on_write(file, offset, b1)?;
+                (g1, Some(crate::verif::io::on_write_second(file, offset, b1, b2)?))
+            }
+        };
         match writable_data {
             WritableData::Single(bytes) => file.write_all_at(&bytes, offset),
             WritableData::Double(b1, b2) => file.write_all_at(&b1, offset).and_then(|_| {
@@ -113,11 +125,15 @@ impl File {
         if Self::can_run_inplace(buf.len() as u64) {
             Self::inplace_sync_call(move || {
                 let offset = file_inner.size.fetch_add(buf.len() as u64, Ordering::SeqCst);
+                #[cfg(feature = "pearl_verif")]
+                let _verif_io = crate::verif::io::on_write(&file_inner.std_file, offset, &buf)?;
                 file_inner.std_file.write_all_at(&buf, offset)
             })
         } else {
             Self::background_sync_call(move || {
                 let offset = file_inner.size.fetch_add(buf.len() as u64, Ordering::SeqCst);
+                #[cfg(feature = "pearl_verif")]
+                let _verif_io = crate::verif::io::on_write(&file_inner.std_file, offset, &buf)?;
                 file_inner.std_file.write_all_at(&buf, offset)
             })
             .await
@@ -127,6 +143,8 @@ impl File {
     pub(crate) async fn write_all_at(&self, offset: u64, buf: Bytes) -> IOResult<()> {
         debug_assert!(offset + buf.len() as u64 <= self.size());
         let file_inner = self.inner.clone();
+        #[cfg(feature = "pearl_verif")]
+        let _verif_io = crate::verif::io::on_write(&file_inner.std_file, offset, &buf)?;
         if Self::can_run_inplace(buf.len() as u64) {
             Self::inplace_sync_call(move || file_inner.std_file.write_all_at(&buf, offset))
         } else {
@@ -166,6 +184,8 @@ impl File {
         let size = self.size();
         Self::background_sync_call(
             move || {
+               #[cfg(feature = "pearl_verif")]
+               let _verif_io = crate::verif::io::on_sync(&file_inner.std_file)?;
                file_inner.std_file.sync_all()?;
                file_inner.synced_size.fetch_max(size, Ordering::SeqCst);
                Ok(())
@@ -244,6 +264,8 @@ impl File {
         setup: impl Fn(&mut OpenOptions) -> &mut OpenOptions,
     ) -> IOResult<Self> {
         let file = setup(&mut OpenOptions::new()).open(path.as_ref()).await?;
+        #[cfg(feature = "pearl_verif")]
+        crate::verif::io::register_fd(file.as_raw_fd(), path.as_ref());
 
         if Self::advisory_write_lock_file(file.as_raw_fd()) == LockAcquisitionResult::AlreadyLocked
         {
